@@ -365,8 +365,18 @@ class Prop:
     def count(self, key, n=1):
         self.dist[key] = self.dist.get(key, 0) + n
 
-    def evaluate(self, cases):
-        """Run impl + model on cases; return (problems, observations)."""
+    def evaluate(self, cases, keys=None):
+        """Run impl + model on cases; return (problems, observations).  Long case lists are processed in chunks so
+        that observations and driver replies of large cases are not all held at once; with `keys` (a set) the
+        non-trivial keys are collected per chunk and the observations are dropped (None is returned for them)."""
+        if len(cases) > 120:
+            problems, obs = [], []
+            for i in range(0, len(cases), 100):
+                p, o = self.evaluate(cases[i:i + 100], keys=keys)
+                problems.extend(p)
+                if keys is None:
+                    obs.extend(o)
+            return problems, (obs if keys is None else None)
         obs = []
         with quiet_fd1():
             for c in cases:
@@ -383,6 +393,11 @@ class Prop:
                 if isinstance(rep, dict) and "error" in rep:
                     raise HarnessError(f"driver error {rep['error']} on case {json.dumps(c)[:400]}")
             problems.extend(self.judge(c, o, replies[a:b]))
+        if keys is not None:
+            for c, o in zip(cases, obs):
+                k = self.nontrivial_key(c, o)
+                if k is not None:
+                    keys.add(hashlib.sha256(k.encode()).hexdigest()[:16] if len(k) > 64 else k)
         return problems, obs
 
     def still_fails(self, case, what_kind):
@@ -570,13 +585,8 @@ def run_check(P, tier="quick", seed=0, replay=None):
 
     rng = random.Random(f"{prop.id}:{seed}")
     cases = list(prop.corpus()) + list(prop.generate(rng, n, deep=deep))
-    problems, obs = prop.evaluate(cases)
-
     seen = set()
-    for c, o in zip(cases, obs):
-        k = prop.nontrivial_key(c, o)
-        if k is not None:
-            seen.add(k)
+    problems, _ = prop.evaluate(cases, keys=seen)
 
     findings = [f for f in load_findings() if f["property"] == prop.id]
     preds = prop.finding_predicates()
@@ -605,8 +615,12 @@ def run_check(P, tier="quick", seed=0, replay=None):
         searched = True
         rng2 = random.Random(f"{prop.id}:{seed}:search")
         extra = list(prop.generate(rng2, prop.budget[tier] * 6, deep=True))
+        by_site = {}
         for d in dis:
-            extra = list(prop.shrink_candidates(d.case))[:50] + extra
+            by_site.setdefault(d.site, []).append(d)
+        for site, ds in by_site.items():
+            for d in ds[:4]:              # a few disagreeing cases per site: their neighbourhood is searched first
+                extra = list(prop.shrink_candidates(d.case))[:50] + extra
         p2, _ = prop.evaluate(extra)
         for p in p2:
             if p.kind != "violation":
@@ -654,8 +668,16 @@ def run_check(P, tier="quick", seed=0, replay=None):
 
     wall = time.time() - t0
     samples = []
-    for c, o in list(zip(cases, obs))[:: max(1, len(cases) // 3)][:3]:
-        samples.append({"case": c, "implementation": o})
+    pick = cases[:: max(1, len(cases) // 3)][:3]
+    try:
+        _, pick_obs = prop.evaluate(pick)          # re-observed: the observations of the main pass are not kept
+    except Exception:
+        pick_obs = [None] * len(pick)
+    for c, o in zip(pick, pick_obs):
+        c, o = jsonable(c), jsonable(o)
+        cj = json.dumps(c, default=str)
+        samples.append({"case": c if len(cj) < 4000 else cj[:4000] + " …(truncated)",
+                        "implementation": o if len(json.dumps(o, default=str)) < 4000 else "(large; omitted)"})
     evidence = {
         "property_id": prop.id,
         "tier": tier,
